@@ -474,7 +474,7 @@ Section Sufficient.
       + destruct HR as [E|[Hnj HR]]; [left; exact E|right]. split.
         * rewrite forallb_forall in Hnj. apply Hnj. apply (lk_in _ _ _ Hp).
         * intros x Hx. apply HR. cbn [walk_item]. rewrite afind_wsubs, Hp. exact Hx.
-    - destruct (afind t (s_blocks s)) as [nl|]; [|apply xres_sim_const].
+    - destruct (afind_last t (s_blocks s)) as [nl|]; [|apply xres_sim_const].
       pose proof Hk as Hk'. cbn [item_keys_ok] in Hk'.
       apply andb_true_iff in Hk' as [Hk' _]. apply andb_true_iff in Hk' as [Hkf _].
       assert (Hfe : value f1 fe = value f2 fe).
@@ -492,7 +492,7 @@ Section Sufficient.
       + apply xres_sim_concat. intro kv.
         exact (new_block_sim blocks b0 f1 f2 it m t fe itn les content _ _ _ _ Hf Hk HF HR).
       + exact (new_block_sim blocks b0 f1 f2 it m t fe itn les content _ _ _ _ Hf Hk HF HR).
-    - destruct (afind t (s_blocks s)); apply xres_sim_const.
+    - destruct (afind_last t (s_blocks s)); apply xres_sim_const.
     - apply xres_sim_const.
   Qed.
 
